@@ -55,8 +55,13 @@ def tentryStr : TEntry → String
 `Flush`, which stand first -/
 def rwsetStr (s : State) (reserved : List TEntry) : String :=
   let rs := buckets.flatMap (fun b => (s.inputs b).map (fun (k, d) => s!"{b}:{k}:{d.ver}:{d.val}"))
-  let ws := buckets.flatMap (fun b => (s.outputs b).map (fun (k, d) => s!"{b}:{k}:{d.val}"))
-  " ".intercalate (["R"] ++ rs ++ ["W"] ++ reserved.map tentryStr ++ ws)
+  let ent (b : Nat) : Elem → String := fun (k, d) => s!"{b}:{k}:{d.val}"
+  -- the write set is in byte order of bucket and key: in the transient bucket 0 the empty key (key 0) stands before the
+  -- reserved entries, every other key behind them
+  let w0e := ((s.outputs 0).filter (fun p => p.1 == 0)).map (ent 0)
+  let w0r := ((s.outputs 0).filter (fun p => p.1 != 0)).map (ent 0)
+  let ws := (buckets.filter (· != 0)).flatMap (fun b => (s.outputs b).map (ent b))
+  " ".intercalate (["R"] ++ rs ++ ["W"] ++ w0e ++ reserved.map tentryStr ++ w0r ++ ws)
 
 def utxorwStr (u : UState (List TxIn)) : String :=
   " ".intercalate (["I"] ++ u.uin.map inStr ++ ["O"] ++ u.uout.map outStr)
@@ -101,7 +106,9 @@ def step (d : DState) (line : String) : DState × String :=
   match words line with
   | "reset" :: kind :: es =>
     match es.mapM parseEntry with
-    | some es => if kind == "m" || kind == "x" then (⟨mkReader kind es, XState.init [], [], [], false⟩, "ok") else (d, "bad-op")
+    -- kinds "M" / "X": the same readers, the harness spells the empty key (key 0) as a nil slice
+    | some es => if kind == "m" || kind == "x" || kind == "M" || kind == "X"
+        then (⟨mkReader kind.toLower es, XState.init [], [], [], false⟩, "ok") else (d, "bad-op")
     | none => (d, "bad-op")
   | "utxo" :: ts =>
     match ts.mapM parseUtxoTok with
